@@ -74,6 +74,10 @@ func TestVerifC07Json(t *testing.T) {
 			_, err := ioutil.ReadAll(NewJsonPlusReader(bytes.NewReader(b)))
 			return err != nil
 		}},
+		{name: "json.strip.dec", modelled: true, gen: vC07JsonDoc, run: func(b []byte) bool {
+			_, err := ioutil.ReadAll(NewJsonPlusReader(bytes.NewReader(b)))
+			return err != nil
+		}},
 		{name: "json.unmarshal", gen: vC07JsonDoc, run: func(b []byte) bool {
 			var v interface{}
 			return Unmarshal(bytes.NewReader(b), &v) != nil
@@ -101,7 +105,7 @@ func TestVerifC07Json(t *testing.T) {
 			return []byte(strings.Repeat("[", n/2) + strings.Repeat("]", n/2))
 		}},
 	}
-	vC07Drive(t, decs, nil, fams, 800, 60000)
+	vC07Drive(t, decs, nil, fams, 800, 10000)
 }
 
 type vC07OneByte struct {
